@@ -14,7 +14,9 @@
  *   hopen F ndds cache | hclose F | snap F G (Hsync + flush, copy the bytes on disk to slot G)
  *   put F tag ref hex | lb F tag ref blen nblk n hex.. | lbs F tag ref blen nblk n (pos hex).. | app F tag ref hex | ext F tag ref name off hex
  *   comp F tag ref coder p hex | chunk F tag ref nt nd d.. c.. coder p fillhex nw (o.. hex).. | chunkhint F tag ref nd n..
- *   dup F tag ref otag oref | del F tag ref
+ *   dup F tag ref otag oref | del F tag ref | lbw F tag ref n (pos hex).. (rewrite/extend an existing element)
+ *   vgdel F slot which delobj | dfsd F nt rank d.. 3 strings (3 strings per dim).. hex | sdselect i | sddimname j namehex |
+ *   sddimattr j namehex nt cnt hex | sdann F idx type hex
  *   vs F slot il blk nf (namehex type order).. nrec hex | vsapp F slot nrec hex | vsattr F slot findex namehex nt cnt hex
  *   vg F slot namehex classhex nm (kind a b).. | vgattr F slot namehex nt cnt hex
  *   sdstart F | sdcreate namehex nt rank d.. | sdfill hex | sdchunk coder p c.. | sdcomp coder p | sdblk n |
@@ -32,6 +34,7 @@
 #include "hfile_priv.h"
 #include "hchunks_priv.h"
 #include "mfhdf.h"
+#include "mfdatainfo.h"
 
 #define NF 4
 #define NSLOT 16
@@ -155,33 +158,44 @@ static void each_chunk(int slot, const char *kind, long a, long b, int nd, const
     }
 }
 
-static void verify(int slot)
+struct ddl { uint16 tag, ref; int sp; };
+static struct ddl dl[4096];
+
+/* every descriptor of an open file: logical content through Hread.  pfx "E" = read-back of the closed file,
+   "PRE" = what the writing session itself reads just before it closes the file */
+static int dump_elems(int32 f, int slot, const char *pfx)
 {
-    int32 f = Hopen(fname[slot], DFACC_READ, 0);
-    if (f == FAIL) { printf("%s F%d OPENFAIL\n", hist, slot); return; }
-    /* ---- every descriptor: logical content through Hread ---- */
     uint16 tag = 0, ref = 0;
     int32  off, len;
     int    ndd = 0;
-    static struct { uint16 tag, ref; int sp; } dl[4096];
     while (Hfind(f, DFTAG_WILDCARD, DFREF_WILDCARD, &tag, &ref, &off, &len, DF_FORWARD) != FAIL && ndd < 4096) {
         uint16 bt = BASETAG(tag);
         dl[ndd].tag = bt; dl[ndd].ref = ref; dl[ndd].sp = 0;
-        if (off == INVALID_OFFSET && len == INVALID_LENGTH) { printf("%s F%d E %d %d sp%d nodata\n", hist, slot, bt, ref, SPECIALTAG(tag) ? -1 : 0); ndd++; continue; }
+        if (off == INVALID_OFFSET && len == INVALID_LENGTH) { printf("%s F%d %s %d %d sp%d nodata\n", hist, slot, pfx, bt, ref, SPECIALTAG(tag) ? -1 : 0); ndd++; continue; }
         int32 aid = Hstartread(f, bt, ref);
-        if (aid == FAIL) { printf("%s F%d E %d %d sp? unreadable\n", hist, slot, bt, ref); ndd++; continue; }
+        if (aid == FAIL) { printf("%s F%d %s %d %d sp? unreadable\n", hist, slot, pfx, bt, ref); ndd++; continue; }
         int32 elen = 0; int16 sp = 0;
         Hinquire(aid, NULL, NULL, NULL, &elen, NULL, NULL, NULL, &sp);
         dl[ndd].sp = sp;
         unsigned char *buf = malloc(elen > 0 ? elen : 1);
         int32 got = elen > 0 ? Hread(aid, elen, buf) : 0;
         Hendaccess(aid);
-        if (got == FAIL) printf("%s F%d E %d %d sp%d readfail %d\n", hist, slot, bt, ref, sp, (int)elen);
-        else { printf("%s F%d E %d %d sp%d %d", hist, slot, bt, ref, sp, (int)got); phex(buf, got); printf("\n"); }
+        if (got == FAIL) printf("%s F%d %s %d %d sp%d readfail %d\n", hist, slot, pfx, bt, ref, sp, (int)elen);
+        else { printf("%s F%d %s %d %d sp%d %d", hist, slot, pfx, bt, ref, sp, (int)got); phex(buf, got); printf("\n"); }
         free(buf);
         ndd++;
     }
     fflush(stdout);
+    return ndd;
+}
+
+static void dump_v(int32 f, int slot, const char *vhp, const char *vgp, int with_di);
+
+static void verify(int slot)
+{
+    int32 f = Hopen(fname[slot], DFACC_READ, 0);
+    if (f == FAIL) { printf("%s F%d OPENFAIL\n", hist, slot); return; }
+    int ndd = dump_elems(f, slot, "E");
     /* ---- raw-location queries at the H level ---- */
     for (int i = 0; i < ndd; i++) {
         struct hctx h = { f, dl[i].tag, dl[i].ref };
@@ -193,53 +207,8 @@ static void verify(int slot)
         else
             di_queries(slot, "H", dl[i].tag, dl[i].ref, "-", di_h, &h, NULL);
     }
-    /* ---- Vdata headers and Vgroups through the V interface ---- */
     Vstart(f);
-    int32 r = -1;
-    while ((r = VSgetid(f, r)) != FAIL) {
-        int32 vs = VSattach(f, r, "r");
-        if (vs == FAIL) { printf("%s F%d VH %d ! attachfail\n", hist, slot, (int)r); continue; }
-        int32 nrec = 0, il = 0, vsize = 0;
-        char  name[VSNAMELENMAX + 1] = "", cls[VSNAMELENMAX + 1] = "", fields[8192] = "";
-        VSinquire(vs, &nrec, &il, fields, &vsize, name);
-        VSgetclass(vs, cls);
-        int nf = VFnfields(vs);
-        long iv = 0;
-        for (int i = 0; i < nf; i++) iv += VFfieldisize(vs, i);
-        printf("%s F%d VH %d il=%d nv=%d iv=%ld name=", hist, slot, (int)r, (int)il, (int)nrec, iv);
-        phex0((unsigned char *)name, strlen(name)); printf(" class="); phex0((unsigned char *)cls, strlen(cls));
-        printf(" f=");
-        if (nf <= 0) printf("-");
-        for (int i = 0; i < nf; i++) {
-            const char *fn_ = VFfieldname(vs, i);
-            printf("%s%d:%d:%d:", i ? "," : "", (int)VFfieldtype(vs, i), (int)VFfieldisize(vs, i), (int)VFfieldorder(vs, i));
-            for (size_t k = 0; k < strlen(fn_); k++) printf("%02x", (unsigned char)fn_[k]);
-            if (!strlen(fn_)) printf("-");
-        }
-        printf(" na=%d\n", (int)VSnattrs(vs));
-        di_queries(slot, "VS", r, 0, "-", di_vs, &vs, NULL);
-        VSdetach(vs);
-    }
-    r = -1;
-    while ((r = Vgetid(f, r)) != FAIL) {
-        int32 vg = Vattach(f, r, "r");
-        if (vg == FAIL) { printf("%s F%d VG %d ! attachfail\n", hist, slot, (int)r); continue; }
-        char  name[1024] = "", cls[1024] = "";
-        int32 n = 0;
-        Vinquire(vg, &n, NULL);      /* Vinquire copies a NULL name of an unnamed vgroup (C08's business): use Vgetname */
-        Vgetname(vg, name);
-        Vgetclass(vg, cls);
-        printf("%s F%d VG %d name=", hist, slot, (int)r);
-        phex0((unsigned char *)name, strlen(name)); printf(" class="); phex0((unsigned char *)cls, strlen(cls));
-        printf(" m=");
-        if (n <= 0) printf("-");
-        int32 *tg = malloc((n + 1) * sizeof(int32)), *rf = malloc((n + 1) * sizeof(int32));
-        int32 got = n > 0 ? Vgettagrefs(vg, tg, rf, n) : 0;
-        for (int i = 0; i < got; i++) printf("%s%d:%d", i ? "," : "", (int)tg[i], (int)rf[i]);
-        printf(" na=%d\n", (int)Vnattrs(vg));
-        free(tg); free(rf);
-        Vdetach(vg);
-    }
+    dump_v(f, slot, "VH", "VG", 1);
     Vend(f);
     fflush(stdout);
     /* ---- raster images through the GR interface ---- */
@@ -275,6 +244,28 @@ static void verify(int slot)
     if (sd != FAIL) {
         int32 nds = 0, nga = 0;
         SDfileinfo(sd, &nds, &nga);
+        for (int a_ = 0; a_ < nga; a_++) {
+            char an_[256] = ""; int32 ant = 0, acnt = 0, o = -7, l = -7;
+            if (SDattrinfo(sd, a_, an_, &ant, &acnt) == FAIL) continue;
+            int rr = SDgetattdatainfo(sd, a_, &o, &l);
+            printf("%s F%d DI ATTF 0 %d 1 ", hist, slot, a_); phex0((unsigned char *)an_, strlen(an_));
+            printf(" = %d", rr);
+            if (rr == 1) printf(" %d:%d", (int)o, (int)l);
+            printf("\n");
+        }
+        for (int t_ = 0; t_ < 2; t_++) {
+            ann_type at = t_ == 0 ? AN_FILE_LABEL : AN_FILE_DESC;
+            int n_ = SDgetanndatainfo(sd, at, 0, NULL, NULL);
+            printf("%s F%d DI ANNF %d 0 N - = %d\n", hist, slot, t_, n_);
+            if (n_ > 0) {
+                int32 *o = malloc(n_ * sizeof(int32)), *l = malloc(n_ * sizeof(int32));
+                int rr = SDgetanndatainfo(sd, at, (unsigned)n_, o, l);
+                printf("%s F%d DI ANNF %d 0 %d - = %d", hist, slot, t_, n_, rr);
+                for (int k = 0; k < rr && k < n_; k++) printf(" %d:%d", (int)o[k], (int)l[k]);
+                printf("\n");
+                free(o); free(l);
+            }
+        }
         for (int i = 0; i < nds; i++) {
             int32 s = SDselect(sd, i);
             if (s == FAIL) continue;
@@ -295,6 +286,63 @@ static void verify(int slot)
                 else { to_file_order(buf, nbytes, ntsize(nt)); printf("%s F%d SDDATA %d", hist, slot, ndg); phex(buf, nbytes); printf("\n"); }
                 free(buf);
             }
+            /* ---- locations of predefined (old-style) strings, attributes and annotations ---- */
+            {
+                static const char *lufname[3] = { "long_name", "units", "format" };
+                static const int   luftag[3]  = { DFTAG_SDL, DFTAG_SDU, DFTAG_SDF };
+                for (int k = 0; k < 3; k++) {
+                    int32 o = -7, l = -7;
+                    int   rr = SDgetoldattdatainfo(0, s, (char *)lufname[k], &o, &l);
+                    printf("%s F%d DI OLD %d %d 1 - = %d", hist, slot, ndg, luftag[k], rr);
+                    if (rr == 1) printf(" %d:%d", (int)o, (int)l);
+                    printf("\n");
+                    for (int j = 0; j < rank; j++) {
+                        int32 d = SDgetdimid(s, j);
+                        o = l = -7;
+                        rr = d != FAIL ? SDgetoldattdatainfo(d, s, (char *)lufname[k], &o, &l) : -2;
+                        printf("%s F%d DI OLD %d %d 1 %d = %d", hist, slot, ndg, luftag[k], j, rr);
+                        if (rr == 1) printf(" %d:%d", (int)o, (int)l);
+                        printf("\n");
+                    }
+                }
+                for (int a_ = 0; a_ < na; a_++) {
+                    char an_[256] = ""; int32 ant = 0, acnt = 0, o = -7, l = -7;
+                    if (SDattrinfo(s, a_, an_, &ant, &acnt) == FAIL) continue;
+                    int rr = SDgetattdatainfo(s, a_, &o, &l);
+                    printf("%s F%d DI ATTS %d %d 1 ", hist, slot, ndg, a_); phex0((unsigned char *)an_, strlen(an_));
+                    if (rr == DFE_NOVGREP) printf(" = novg"); else printf(" = %d", rr);
+                    if (rr == 1) printf(" %d:%d", (int)o, (int)l);
+                    printf("\n");
+                }
+                for (int j = 0; j < rank; j++) {
+                    int32 d = SDgetdimid(s, j);
+                    char  dn[256] = ""; int32 dsz = 0, dnt = 0, dna = 0;
+                    if (d == FAIL || SDdiminfo(d, dn, &dsz, &dnt, &dna) == FAIL) continue;
+                    for (int a_ = 0; a_ < dna; a_++) {
+                        char an_[256] = ""; int32 ant = 0, acnt = 0, o = -7, l = -7;
+                        if (SDattrinfo(d, a_, an_, &ant, &acnt) == FAIL) continue;
+                        int rr = SDgetattdatainfo(d, a_, &o, &l);
+                        printf("%s F%d DI ATTD %d %d 1 ", hist, slot, ndg, j * 1000 + a_);
+                        phex0((unsigned char *)dn, strlen(dn)); printf(":"); phex0((unsigned char *)an_, strlen(an_));
+                        if (rr == DFE_NOVGREP) printf(" = novg"); else printf(" = %d", rr);
+                        if (rr == 1) printf(" %d:%d", (int)o, (int)l);
+                        printf("\n");
+                    }
+                }
+                for (int t_ = 0; t_ < 2; t_++) {
+                    ann_type at = t_ == 0 ? AN_DATA_LABEL : AN_DATA_DESC;
+                    int n_ = SDgetanndatainfo(s, at, 0, NULL, NULL);
+                    printf("%s F%d DI ANNS %d %d N - = %d\n", hist, slot, ndg, t_ + 2, n_);
+                    if (n_ > 0) {
+                        int32 *o = malloc(n_ * sizeof(int32)), *l = malloc(n_ * sizeof(int32));
+                        int rr = SDgetanndatainfo(s, at, (unsigned)n_, o, l);
+                        printf("%s F%d DI ANNS %d %d %d - = %d", hist, slot, ndg, t_ + 2, n_, rr);
+                        for (int k = 0; k < rr && k < n_; k++) printf(" %d:%d", (int)o[k], (int)l[k]);
+                        printf("\n");
+                        free(o); free(l);
+                    }
+                }
+            }
             HDF_CHUNK_DEF cd; int32 fl = 0;
             if (SDgetchunkinfo(s, &cd, &fl) != FAIL && fl != HDF_NONE) {
                 int nch[8];
@@ -311,6 +359,59 @@ static void verify(int slot)
         SDend(sd);
     }
     printf("%s F%d END\n", hist, slot);
+    fflush(stdout);
+}
+
+/* Vdata headers and Vgroups through the V interface (Vstart done by the caller) */
+static void dump_v(int32 f, int slot, const char *vhp, const char *vgp, int with_di)
+{
+    /* ---- Vdata headers and Vgroups through the V interface ---- */
+    int32 r = -1;
+    while ((r = VSgetid(f, r)) != FAIL) {
+        int32 vs = VSattach(f, r, "r");
+        if (vs == FAIL) { printf("%s F%d %s %d ! attachfail\n", hist, slot, vhp, (int)r); continue; }
+        int32 nrec = 0, il = 0, vsize = 0;
+        char  name[VSNAMELENMAX + 1] = "", cls[VSNAMELENMAX + 1] = "", fields[8192] = "";
+        VSinquire(vs, &nrec, &il, fields, &vsize, name);
+        VSgetclass(vs, cls);
+        int nf = VFnfields(vs);
+        long iv = 0;
+        for (int i = 0; i < nf; i++) iv += VFfieldisize(vs, i);
+        printf("%s F%d %s %d il=%d nv=%d iv=%ld name=", hist, slot, vhp, (int)r, (int)il, (int)nrec, iv);
+        phex0((unsigned char *)name, strlen(name)); printf(" class="); phex0((unsigned char *)cls, strlen(cls));
+        printf(" f=");
+        if (nf <= 0) printf("-");
+        for (int i = 0; i < nf; i++) {
+            const char *fn_ = VFfieldname(vs, i);
+            printf("%s%d:%d:%d:", i ? "," : "", (int)VFfieldtype(vs, i), (int)VFfieldisize(vs, i), (int)VFfieldorder(vs, i));
+            for (size_t k = 0; k < strlen(fn_); k++) printf("%02x", (unsigned char)fn_[k]);
+            if (!strlen(fn_)) printf("-");
+        }
+        printf(" na=%d\n", (int)VSnattrs(vs));
+        if (with_di) di_queries(slot, "VS", r, 0, "-", di_vs, &vs, NULL);
+        VSdetach(vs);
+    }
+    r = -1;
+    while ((r = Vgetid(f, r)) != FAIL) {
+        int32 vg = Vattach(f, r, "r");
+        if (vg == FAIL) { printf("%s F%d %s %d ! attachfail\n", hist, slot, vgp, (int)r); continue; }
+        char  name[1024] = "", cls[1024] = "";
+        int32 n = 0;
+        Vinquire(vg, &n, NULL);      /* Vinquire copies a NULL name of an unnamed vgroup (C08's business): use Vgetname */
+        Vgetname(vg, name);
+        Vgetclass(vg, cls);
+        printf("%s F%d %s %d name=", hist, slot, vgp, (int)r);
+        phex0((unsigned char *)name, strlen(name)); printf(" class="); phex0((unsigned char *)cls, strlen(cls));
+        printf(" m=");
+        if (n <= 0) printf("-");
+        int32 *tg = malloc((n + 1) * sizeof(int32)), *rf = malloc((n + 1) * sizeof(int32));
+        int32 got = n > 0 ? Vgettagrefs(vg, tg, rf, n) : 0;
+        for (int i = 0; i < got; i++) printf("%s%d:%d", i ? "," : "", (int)tg[i], (int)rf[i]);
+        printf(" na=%d\n", (int)Vnattrs(vg));
+        free(tg); free(rf);
+        Vdetach(vg);
+    }
+    fflush(stdout);
     fflush(stdout);
 }
 
@@ -356,13 +457,14 @@ static void run_op(long ln)
     else if (!strcmp(op, "hclose")) {
         int F = argl();
         if (!F_OPEN(F)) ok = 0;
-        else { dump_mem(F); Vend(fid[F]); ok = Hclose(fid[F]) != FAIL; fid[F] = FAIL; if (!ok) notclosed[F] = 1; }
+        else { dump_elems(fid[F], F, "PRE"); dump_v(fid[F], F, "PREVH", "PREVG", 0); dump_mem(F); Vend(fid[F]); ok = Hclose(fid[F]) != FAIL; fid[F] = FAIL; if (!ok) notclosed[F] = 1; }
     }
     else if (!strcmp(op, "snap")) {
         int F = argl(), G = argl();
         if (!F_OPEN(F) || G < 0 || G >= NF) ok = 0;
         else {
             filerec_t *fr = HAatom_object(fid[F]);
+            dump_elems(fid[F], F, "PRE"); dump_v(fid[F], F, "PREVH", "PREVG", 0);
             ok = Hsync(fid[F]) != FAIL && fr && HI_FLUSH(fr->file) != FAIL;
             dump_mem(F);
             if (ok) { ok = copy_file(fname[F], fname[G]) == 0; exists_[G] = 1; }
@@ -388,6 +490,94 @@ static void run_op(long ln)
             ok = Hseek(aid, pos, DF_START) != FAIL && (n == 0 || Hwrite(aid, n, databuf) == n);
         }
         if (aid != FAIL) Hendaccess(aid);
+    }
+    else if (!strcmp(op, "lbw")) {      /* rewrite / extend an existing element at positions: lbw F tag ref n (pos hex).. */
+        int F = argl(), tag = argl(), ref = argl(), nw = argl();
+        int32 aid = F_OPEN(F) ? Hstartaccess(fid[F], tag, ref, DFACC_WRITE) : FAIL;
+        ok = aid != FAIL;
+        for (int i = 0; i < nw && ok; i++) {
+            int pos = argl(); int n = unhex(args(), databuf);
+            ok = Hseek(aid, pos, DF_START) != FAIL && (n == 0 || Hwrite(aid, n, databuf) == n);
+        }
+        if (aid != FAIL) Hendaccess(aid);
+    }
+    else if (!strcmp(op, "vgdel")) {    /* vgdel F slot which(0 first,1 middle,2 last) delobj */
+        int F = argl(), slot = argl(), which = argl(), delobj = argl();
+        int32 vg = F_OPEN(F) && vgref[F][slot] > 0 ? Vattach(fid[F], vgref[F][slot], "w") : FAIL;
+        ok = vg != FAIL;
+        int32 t = 0, r = 0;
+        if (ok) {
+            int32 n = Vntagrefs(vg);
+            int idx = which == 0 ? 0 : which == 1 ? n / 2 : n - 1;
+            ok = n > 0 && Vgettagref(vg, idx, &t, &r) != FAIL && Vdeletetagref(vg, t, r) != FAIL;
+        }
+        if (vg != FAIL) ok = (Vdetach(vg) != FAIL) && ok;
+        if (ok && delobj) {
+            if (t == DFTAG_VH) {    /* only while its data is a plain element (see below) */
+                int32 aid = Hstartread(fid[F], DFTAG_VS, (uint16)r); int16 sp = 0;
+                if (aid != FAIL) { Hinquire(aid, NULL, NULL, NULL, NULL, NULL, NULL, NULL, &sp); Hendaccess(aid); }
+                if (sp == 0) VSdelete(fid[F], r);
+            }
+            else if (t == DFTAG_VG) Vdelete(fid[F], r);
+            else {      /* a plain element only: Hdeldd of a special element leaves its blocks / tables behind by design */
+                int32 aid = Hstartread(fid[F], (uint16)t, (uint16)r); int16 sp = 1;
+                if (aid != FAIL) { Hinquire(aid, NULL, NULL, NULL, NULL, NULL, NULL, NULL, &sp); Hendaccess(aid); }
+                if (aid != FAIL && sp == 0) Hdeldd(fid[F], (uint16)t, (uint16)r);
+            }
+        }
+        v1 = t * 100000L + r; have_v = ok;
+    }
+    else if (!strcmp(op, "dfsd")) {     /* dfsd F nt rank d.. lab unit fmt (lab unit fmt per dim).. hex   (strings hex, "-" = none) */
+        int F = argl(), nt = argl(), rank = argl(); int32 dims[8]; char a[3][256];
+        for (int i = 0; i < rank && i < 8; i++) dims[i] = argl();
+        ok = F >= 0 && F < NF && fid[F] == FAIL && DFSDclear() != FAIL && DFSDsetNT(nt) != FAIL && DFSDsetdims(rank, dims) != FAIL;
+        for (int k = 0; k < 3; k++) hexstr(args(), a[k]);
+        if (ok && (a[0][0] || a[1][0] || a[2][0])) ok = DFSDsetdatastrs(a[0], a[1], a[2], "") != FAIL;
+        for (int i = 0; i < rank; i++) {
+            for (int k = 0; k < 3; k++) hexstr(args(), a[k]);
+            if (ok && (a[0][0] || a[1][0] || a[2][0])) ok = DFSDsetdimstrs(i + 1, a[0], a[1], a[2]) != FAIL;
+        }
+        int n = unhex(args(), databuf);
+        if (ok) { to_file_order(databuf, n, ntsize(nt)); ok = DFSDadddata(fname[F], rank, dims, databuf) != FAIL; if (ok) exists_[F] = 1; }
+    }
+    else if (!strcmp(op, "sdselect")) {
+        int i = argl();
+        if (sds_id != FAIL) { SDendaccess(sds_id); sds_id = FAIL; }
+        sds_id = sd_id != FAIL ? SDselect(sd_id, i) : FAIL;
+        ok = sds_id != FAIL;
+    }
+    else if (!strcmp(op, "sddimname")) {
+        int j = argl(); char nm[256]; hexstr(args(), nm);
+        int32 d = sds_id != FAIL ? SDgetdimid(sds_id, j) : FAIL;
+        ok = d != FAIL && SDsetdimname(d, nm) != FAIL;
+    }
+    else if (!strcmp(op, "sddimattr")) {
+        int j = argl(); char nm[256]; hexstr(args(), nm); int nt = argl(), cnt = argl(); unhex(args(), databuf);
+        int32 d = sds_id != FAIL ? SDgetdimid(sds_id, j) : FAIL;
+        ok = d != FAIL && SDsetattr(d, nm, nt, cnt, databuf) != FAIL;
+    }
+    else if (!strcmp(op, "sdann")) {    /* sdann F idx type(2 label,3 desc; 0/1 file label/desc) hex : annotation on the idx-th data set's NDG */
+        int F = argl(), idx = argl(), type = argl(); int n = unhex(args(), databuf);
+        int ref = 0;
+        ok = F >= 0 && F < NF && fid[F] == FAIL && sd_id == FAIL && exists_[F];
+        if (ok && type >= 2) {
+            int32 sd = SDstart(fname[F], DFACC_READ);
+            int32 s_ = sd != FAIL ? SDselect(sd, idx) : FAIL;
+            ref = s_ != FAIL ? SDidtoref(s_) : 0;
+            if (s_ != FAIL) SDendaccess(s_);
+            if (sd != FAIL) SDend(sd);
+            ok = ref > 0;
+        }
+        if (ok) {
+            int32 f = Hopen(fname[F], DFACC_RDWR, 0);
+            int32 an = f != FAIL ? ANstart(f) : FAIL;
+            int32 a = an == FAIL ? FAIL : (type <= 1 ? ANcreatef(an, type == 0 ? AN_FILE_LABEL : AN_FILE_DESC)
+                                                     : ANcreate(an, DFTAG_NDG, (uint16)ref, type == 2 ? AN_DATA_LABEL : AN_DATA_DESC));
+            ok = a != FAIL && ANwriteann(a, (char *)databuf, n) != FAIL;
+            if (a != FAIL) ANendaccess(a);
+            if (an != FAIL) ANend(an);
+            if (f != FAIL && Hclose(f) == FAIL) { notclosed[F] = 1; ok = 0; }
+        }
     }
     else if (!strcmp(op, "app")) {
         int F = argl(), tag = argl(), ref = argl(); int n = unhex(args(), databuf);
